@@ -36,11 +36,16 @@ def gadget(meaning_pos, closure_vars=None, extra_requires=()):
 
 CONTRACTS = {
     (C, 'CNF.__init__'): {
-        'assumed': 'CNF() with no arguments is the empty formula over zero variables (constructor chain not executed symbolically)',
-        'params': {'clauses': 'none', 'description': 'none'},
+        # proved: the constructor chain CNF -> CNFLinear -> BaseCNF (+ VariablesManager) yields the empty formula over
+        # zero variables when no clauses are given (header handling is opaque)
+        'property': ['C10', 'C05'],
+        'params': {'self': 'newobj:CNF', 'clauses': 'none', 'description': 'optstr'},
         'modifies': ['self._clauses', 'self._numvar'],
         'ensures': ['self._clauses == cnil', 'self._numvar == 0'],
     },
+    ('cnfgen/formula/linear.py', 'CNFLinear.__init__'): {'inline_always': True},
+    ('cnfgen/formula/basecnf.py', 'BaseCNF.__init__'): {'inline_always': True},
+    ('cnfgen/formula/variables.py', 'VariablesManager.__init__'): {'inline_always': True},
     ('cnfgen/formula/basecnf.py', 'BaseCNF.__iter__'): {'inline_always': True},
     # xor of the block is true  <=>  odd number of true variables
     (S, 'XorSubstitution.xorify'): gadget('count(a, {}) % 2 == 1'.format(BLOCK)),
